@@ -15,7 +15,7 @@ from ..harness import _SETUP, qcall, tree_hash
 
 ID = "C12"
 LEVEL = "exploration"
-BUDGET = {"quick": 640, "thorough": 32000}
+BUDGET = {"quick": 640, "thorough": 16000}
 TECHNIQUE = "schedule exploration with a schedule-owning pool (exhaustive per pool call for <= 4 tasks, four fixed permutations per larger call, Hypothesis-drawn joint schedules, eager / lazy) plus a real-process differential tier with worker counts and per-task delays"
 RULE = ("Hypothesis-generated case = entry point in {reader [] selections, reader .iter, level iteration, taste, "
         "colander, combine, chef (parallel vs serial), mandoline 2D, mandoline 3D array, mandoline 3D plotfile, pestle, "
@@ -119,8 +119,15 @@ def run_entry(case, serial=False):
         return digest(res)
     if e == "taste":
         from amr_kitchen.taste import Taster
-        return digest([bool(Taster("src", nofail=True, verbose=0, boxes_coordinates=True)),
-                       bool(Taster("damaged", nofail=True, verbose=0)), bool(Taster("src", nofail=True, verbose=0, binary_data=True))])
+        res = [bool(Taster("src", nofail=True, verbose=0, boxes_coordinates=True)),
+               bool(Taster("damaged", nofail=True, verbose=0)), bool(Taster("src", nofail=True, verbose=0, binary_data=True))]
+        if os.path.isdir("damaged_many"):
+            try:
+                Taster("damaged_many", verbose=0)
+                res.append("accepted")
+            except Exception as ex:
+                res.append(f"{type(ex).__name__}: {ex}")       # the defect reported in failing mode
+        return digest(res)
     if e == "colander":
         from amr_kitchen.colander import Colander
         Colander("src", output="out", variables=["Y(H2)", "temp"]).strain()
@@ -303,6 +310,18 @@ def prepare(case, variant):
         # in the second directory the roles are swapped: "src" is the damaged one, "damaged" is intact
         corrupt.apply("src" if variant else "damaged",
                       dict(kind="fab_shift", lv=plot.nlev - 1, box=len(plot.levels[-1]["boxes"]) - 1, amt=8, dim=0, side=0))
+    if e == "taste":
+        # several defects, one per binary file of the finest level: which one is reported must not depend on the schedule
+        shutil.copytree("damaged" if variant else "src", "damaged_many") if not os.path.isdir("damaged_many") else None
+        lev = plot.levels[-1]
+        seen = set()
+        for b, f in enumerate(lev["files"]):
+            if f not in seen and len(seen) < 3:
+                seen.add(f)
+                try:
+                    corrupt.apply("damaged_many", dict(kind="fab_shift", lv=plot.nlev - 1, box=b, amt=8, dim=b % plot.ndims, side=0))
+                except corrupt.NotApplicable:
+                    pass
     if e == "chef":
         with open("recipe_c12.py", "w") as f:
             f.write(RECIPE)
